@@ -296,7 +296,13 @@ func (c *FIFO) Put(b bgzf.Block) (evicted bgzf.Block, retained bool) {
 	defer c.mu.Unlock()
 
 	var d bgzf.Block
-	if _, ok := c.table[b.Base()]; ok {
+	if n, ok := c.table[b.Base()]; ok {
+		if n.b == b {
+			// Get hands out a used Block without removing it, so
+			// b is still held here and must not be reported as
+			// free for reuse.
+			return nil, false
+		}
 		return b, false
 	}
 	used := b.Used()
